@@ -38,7 +38,11 @@ const Rule = "cases = (register kinds: u unordered, s stable, sorted with compar
 	"neighbours and both ends are checked, and at every size within 2 (above 5000: within 1 of a power of two) of c, c/2, c/4, 3c/4 for the capacities c of a growing Go slice the whole set " +
 	"(All, String, Size, IsEmpty; up to 300 members and within 1 of every power of two also Equal/IsSubset/IsSuperset against a set of the oracle's members and against that set plus one), " +
 	"fam=algebra-size (Difference/Intersection/Union leaving a fifth of a 256-1025 member receiver, all nine pairings of " +
-	"implementations, a set minus itself), fam=iter, fam=extreme (members 0, -1, 2^31, 2^32, MaxInt64, MinInt64 for the comparators that do not subtract), " +
+	"implementations, a set minus itself), fam=algebra-mix (two dimensions at once: sets of 64, 65, 128, 129, 256, 257 members under all seven " +
+	"comparators/implementations, ranges overlapping heavily and lightly, every ordered pairing in Union/Intersection/Difference and calls with three to five operands; at 1024 the " +
+	"sorted pairings), fam=typed (header elem=string|struct|ptr|slice|sbox|any: the three implementations with element types string, a struct, a fresh pointer per value, " +
+	"[]int, a struct holding a slice, any holding int/string/[]int/such a struct by turns; equal/compare/format decide on the integer an element stands for, so the output lines are " +
+	"the Model's; Add/Remove/RemoveAll/Contains/Size/IsEmpty/All/String/Equal/IsSubset/IsSuperset/Clone/CloneEmpty/Union/Intersection/Difference), fam=every-size (the multi-operand mixed-comparator algebra at every size 0-200), fam=iter, fam=extreme (members 0, -1, 2^31, 2^32, MaxInt64, MinInt64 for the comparators that do not subtract), " +
 	"fam=big (65537 members — thorough also 65535, 65536 and the unordered and stable sets —, oracle only, counted as oracle_only_cases: the list-backed " +
 	"Model is quadratic there); every register other than the destination is compared with its String() snapshot " +
 	"after every op; String() of every set object an op creates or changes is parsed in the format the object must carry " +
@@ -478,6 +482,10 @@ func Exec(c hx.Case) hx.Result {
 }
 
 func execCase(c hx.Case, pub *published) {
+	if el := hx.HeaderGet(c.Header, "elem"); el != "" && el != "int" {
+		execTypedCase(c, pub, el) // typed.go
+		return
+	}
 	res := hx.Result{BadOp: -1}
 	publish := func() {
 		pub.mu.Lock()
@@ -2420,6 +2428,77 @@ func algebraSizeCase(sh uint32, ka, kb byte, n int) hx.Case {
 	return hx.Case{Header: fmt.Sprintf("comp=reg sh=%d regs=%c%c%c%c fam=algebra-size", sh, ka, kb, ka, ka), Ops: ops}
 }
 
+// algebraMixCase: two dimensions at once — sets of n members each under all seven comparators/implementations, every
+// ordered pairing in Union / Intersection / Difference (the operation rotates with the pairing and with rot), and calls
+// with three operands. stride = how far the ranges of neighbouring registers are apart: n/3 overlaps heavily,
+// 7n/8 lightly (a Difference then leaves most of a large receiver standing when the next operand arrives).
+// Registers 0-6: one per kind, register k holds lo, lo+1, …, lo = (k mod 4) * stride; 7: results.
+func algebraMixCase(sh uint32, n, stride, rot int, sortedOnly bool) hx.Case {
+	kinds := kindLetters // usadbce
+	var ops []string
+	emit := func(format string, a ...any) { ops = append(ops, fmt.Sprintf(format, a...)) }
+	for k := range kinds {
+		lo := (k % 4) * stride
+		if k%2 == 0 {
+			emit("addvar %d %d %d 1", k, lo, n)
+		} else {
+			emit("addvar %d %d %d -1", k, lo+n-1, n)
+		}
+	}
+	names := []string{"union", "inter", "diff"}
+	for a := range kinds {
+		for b := range kinds {
+			if sortedOnly && (a < 2 || b < 2 || a == b) {
+				continue
+			}
+			emit("%s 7 %d %d", names[(a+2*b+rot)%3], a, b)
+		}
+	}
+	for a := range kinds {
+		for _, d := range [][2]int{{3, 6}, {1, 4}, {2, 5}} {
+			b, c := (a+d[0])%7, (a+d[1])%7
+			if sortedOnly && (a < 2 || (b < 2 && c < 2)) {
+				continue
+			}
+			emit("%s 7 %d %d %d", names[(a+d[0]+rot)%3], a, b, c)
+			if !sortedOnly || d[0] == 3 {
+				emit("diff 7 %d %d %d", a, b, c)
+			}
+		}
+	}
+	emit("diff 7 2 3 4 5 6")
+	emit("union 7 3 2 0 1 2")
+	emit("size 7")
+	return hx.Case{Header: fmt.Sprintf("comp=reg sh=%d regs=%s%c fam=algebra-mix", sh, kinds, kinds[rot%len(kinds)]), Ops: ops}
+}
+
+// everySizeCase: the multi-operand, mixed-comparator algebra at EVERY size n (thresholds that are not powers of two).
+// Registers 0-3 of rotating kinds, n members each, ranges 7n/8 apart (0 and 2 also share every other member); 4: results.
+func everySizeCase(n int) hx.Case {
+	kinds := []string{"adus", "daeb", "usac", "bcde", "eads", "sdau", "caub"}[n%7]
+	var ops []string
+	emit := func(format string, a ...any) { ops = append(ops, fmt.Sprintf(format, a...)) }
+	st := 7 * n / 8
+	emit("addvar 0 0 %d 1", n)
+	emit("addvar 1 %d %d 1", st, n)
+	emit("addvar 2 %d %d -2", 2*n, n)
+	emit("addvar 3 %d %d 1", n/8, n)
+	emit("union 4 0 1 2 3")
+	emit("diff 4 1 0 3")
+	emit("diff 4 0 1 2")
+	emit("diff 4 3 0 2 1")
+	emit("diff 4 2 1 0")
+	emit("inter 4 0 3")
+	emit("inter 4 3 0 1")
+	emit("union 4 1 0")
+	emit("union 4 2 3")
+	emit("equal 4 2")
+	emit("subset 0 4")
+	emit("diff 4 4 0 1")
+	emit("size 4")
+	return hx.Case{Header: fmt.Sprintf("comp=reg sh=%d regs=%s%c fam=every-size", 5000+n, kinds, kinds[0]), Ops: ops}
+}
+
 // bigCase: 65535..65537 members (oracle only: the list-backed Model is quadratic there). The build and the
 // removals are chosen so that the implementation stays fast: ascending values, removals from the second-to-last
 // member downwards (the array is shifted by one place per Remove).
@@ -2552,6 +2631,37 @@ func sizeFamilies(run *hx.Run, do func(hx.Case)) {
 		}
 	}
 	do(algebraSizeCase(77, 'e', 'c', 600))
+	// mixed comparators and several operands at the sweep sizes
+	for i, n := range []int{64, 65, 128, 129, 256, 257} {
+		do(algebraMixCase(uint32(900+i), n, n/3, i, false))
+		do(algebraMixCase(uint32(910+i), n, 7*n/8, i+1, false))
+	}
+	do(algebraMixCase(920, 1024, 7*1024/8, 0, true))
+	if run.Thorough() {
+		do(algebraMixCase(921, 1024, 1024/3, 1, true))
+		do(algebraMixCase(922, 1025, 7*1025/8, 2, true))
+		for i, n := range []int{63, 127, 130, 255, 511, 512, 513} {
+			do(algebraMixCase(uint32(930+i), n, n/3, i, false))
+			do(algebraMixCase(uint32(940+i), n, 7*n/8, i+2, false))
+		}
+	}
+	for n := 0; n <= 200; n++ {
+		do(everySizeCase(n))
+	}
+	// element types other than int (typed.go): a fixed history per type over all seven kinds …
+	for i, el := range elemTypes {
+		do(hx.Case{Header: fmt.Sprintf("comp=reg sh=%d regs=usadbceu fam=typed elem=%s", 700+i, el), Ops: []string{
+			"add 0 3 1 2 1", "add 1 5 1 4", "add 2 7 -2 3 0", "add 3 7 -2 3 0", "add 4 2 9", "add 5 1 1 6", "add 6 4 0 -1",
+			"contains 0 1 3", "contains 0 4", "contains 2 -2", "contains 3 8", "remove 0 1 9", "remove 2 3 3", "all 0", "all 1", "all 2", "all 3",
+			"equal 2 3", "equal 3 2", "subset 6 2", "superset 2 6", "union 7 0 1 2", "union 7 1 0 3 6", "union 7 2 3 4", "inter 7 2 3", "inter 7 0 1 2",
+			"diff 7 3 2", "diff 7 3 0 4 6", "diff 7 1 1", "clone 7 3", "add 7 100", "equal 7 3", "cloneempty 7 1", "add 7 4 5", "subset 7 1",
+			"removeall 4", "isempty 4", "size 5", "string 0", "string 1", "string 2", "string 3", "string 5", "string 6", "string 7"}})
+	}
+	// … and random ones
+	rty := run.R.Fork("typed")
+	for k := run.Scale(90); k > 0; k-- {
+		do(typedCase(rty, hx.Pick(rty, elemTypes)))
+	}
 	// iterators
 	for i, kinds := range []string{"uusa", "uuud", "suua", "aude", "ussb"} {
 		do(iterCase(uint32(100+i), kinds, 5+i, 9+2*i))
